@@ -2,5 +2,5 @@ SPECIFICATION Spec
 CONSTANTS
   Versions <- VersionsAll
   Family = "pair"
-INVARIANTS RefusedWhenOver PersistableOnlyBytes OkWithin HashIndependent ShapesWellFormed PlacementIndependent ReceiptJudgesKept AltOnlyStraddle Accounting GrowthKeepsRefusal Emit
+INVARIANTS RefusedWhenOver PersistableOnlyBytes OkWithin HashIndependent ShapesWellFormed PlacementIndependent ReceiptJudgesKept AltOnlyStraddle Accounting GrowthKeepsRefusal PersistableIsHandedOn AcceptedIsHandedOn RefusedIsDropped KeptOnReceiptOnly HandedUniform Emit
 CHECK_DEADLOCK FALSE
